@@ -73,7 +73,7 @@ func checkC18(repo, tier string, verifSeed uint64) int {
 		return 2
 	}
 	b.BuildS = time.Since(t0).Seconds()
-	logf("built in %.1fs: %d files, %d yield sites, op_only=%v (%s)", b.BuildS, b.Desc.Files, b.Desc.Sites, b.Desc.OpOnly, strings.Join(b.Desc.BlockingSync, "; "))
+	logf("built in %.1fs: %d files, %d yield sites, op_only=%v (%s), %d lock rewrites, %d once wraps", b.BuildS, b.Desc.Files, b.Desc.Sites, b.Desc.OpOnly, strings.Join(b.Desc.BlockingSync, "; "), b.Desc.LockRewrites, b.Desc.OnceWraps)
 	if len(b.Desc.PkgVars) > 0 {
 		logf("note: package-level variables that are not error sentinels: %v", b.Desc.PkgVars)
 	}
@@ -266,8 +266,25 @@ func reportViolation(b *Build, fv *foundViolation, verifSeed uint64, plan tierPl
 		return path
 	}
 	logf("violation confirmed by replaying the batch prefix (%d run(s)) in a fresh process; minimising (budget %s)", len(rf.Runs), plan.minimiseBudget)
-	// 2. minimise
-	min := minimise(b, rf, bt.Race, fv.keys, plan.minimiseBudget, logf)
+	// 2. minimise; an oracle mismatch found in the race build is minimised in the plain build
+	// (same seeds, same traces, several times faster) if it reproduces there
+	useRace := bt.Race
+	if bt.Race {
+		nonRace := map[string]bool{}
+		for k := range fv.keys {
+			if !strings.HasPrefix(k, "O1/") {
+				nonRace[k] = true
+			}
+		}
+		if len(nonRace) > 0 && sameFailure(execReplay(b, rf, false), nonRace, b.Scratch) {
+			useRace = false
+			fv.keys = nonRace
+			rf.Build = "plain"
+			logf("reproduces in the plain build as well; minimising there")
+		}
+	}
+	min := minimise(b, rf, useRace, fv.keys, plan.minimiseBudget, logf)
+	bt.Race = useRace
 	// 3. final replay: record the violation as reproduced by the minimised file
 	fin := execReplay(b, min, bt.Race)
 	if sameFailure(fin, fv.keys, b.Scratch) {
